@@ -434,6 +434,12 @@ def enum_cone(tier, seed):
         for d in dirs:
             yield ("cone", v, d)
             yield ("cylinder", v, d)
+    # axes that are nearly, but not exactly, parallel to a coordinate axis (tilt 1e-3 .. 3e-3 rad): any shortcut for
+    # "axis already vertical" has to be exact or use a tolerance on the right quantity
+    for v in verts[:2]:
+        for d in ((1, 0, 300), (0, 1, -1000), (1, -1, 500), (2, 1, 1000), (300, 0, 1), (1, 400, 0), (-1, 0, -400)):
+            yield ("cone", v, d)
+            yield ("cylinder", v, d)
 
 
 def cone_matrix(v, d, r, s):
